@@ -308,7 +308,7 @@ def r_renaming(rule, root=None):
             need = [
                 "*%s=workspace.get_or_insert_active(*%s)" % (rn, rn),
                 "workspace.alloc.op(op)",
-                "ops_out.push(op)",
+                "%s.push(op)" % ops_out_name(fn),
                 "(output_count+=1)",
                 "continue",
             ]
@@ -349,6 +349,25 @@ def r_renaming(rule, root=None):
             rule.bad("CopyReg", "CopyReg arm must be `match active(src) { Some(s) => rename both, None => set_active(src, new_index); continue }`", A.where(fn, a))
 
 
+def ops_out_name(fn):
+    """the local holding the recycled op list: `let mut X = tape.ssa.tape;`"""
+    for s in A.find(fn["body"], "Let"):
+        if s.get("init") is not None and A.unparse(s["init"]).replace(" ", "") == "tape.ssa.tape" and A.binding_name(s["pat"]):
+            return A.binding_name(s["pat"])
+    raise A.AnchorLost("`let mut ops_out = tape.ssa.tape` (the recycled op list) in VmData::simplify")
+
+
+def resolved_text(fn, e):
+    """text of `e`, looking through a local bound once by a plain `let`"""
+    e = A.strip(e) if e else e
+    n = A.ident(e) if e else None
+    if n:
+        lets = [s for s in A.find(fn["body"], "Let") if A.binding_name(s["pat"]) == n and s.get("init") is not None]
+        if len(lets) == 1:
+            return A.unparse(lets[0]["init"]).replace(" ", "")
+    return A.unparse(e).replace(" ", "") if e else ""
+
+
 def r_tail(rule, root=None):
     """after the match: every surviving op is allocated and pushed once; the final
     accounting counts one op per active register plus one per output; the result
@@ -356,15 +375,16 @@ def r_tail(rule, root=None):
     fn = simplify_fn(root)
     loop = main_loop(fn)
     stmts = loop["body"]["stmts"]
+    OPS = ops_out_name(fn)
     tail = [A.ftxt(s) for s in stmts[-2:]]
-    if tail == ["workspace.alloc.op(op);", "ops_out.push(op);"]:
+    if tail == ["workspace.alloc.op(op);", "%s.push(op);" % OPS]:
         rule.ok("loop tail: alloc.op(op); ops_out.push(op)", file=DATA, line=stmts[-1]["ln"])
     else:
         rule.bad("tail", "the loop must end with `workspace.alloc.op(op); ops_out.push(op);`, found %s" % tail, A.where(fn, loop))
-    asserts = [m for m in A.find(fn["body"], "Macro") if m["name"] == "assert_eq" and "ops_out.len()" in A.ftxt(m)]
+    asserts = [m for m in A.find(fn["body"], "Macro") if m["name"] == "assert_eq" and "%s.len()" % OPS in A.ftxt(m)]
     if len(asserts) == 1:
         args = asserts[0].get("args") or []
-        other = [a for a in args if "ops_out" not in A.unparse(a)]
+        other = [a for a in args if OPS not in A.unparse(a)]
         t = A.ftxt(other[0]) if other else ""
         if "workspace.count" in t and "output_count" in t and "+" in t:
             rule.ok("accounting: count + output_count == ops_out.len()", file=DATA, line=asserts[0]["ln"])
@@ -387,12 +407,12 @@ def r_tail(rule, root=None):
         rule.ok("result shares self.vars")
     ssa = f.get("ssa")
     sf = {x["name"]: A.ftxt(x["e"]) for x in (A.strip(ssa) or {}).get("fields", [])} if ssa else {}
-    want = {"tape": "ops_out", "choice_count": "choice_count", "output_count": "output_count"}
+    want = {"tape": OPS, "choice_count": "choice_count", "output_count": "output_count"}
     if sf != want:
         rule.bad("result|ssa", "the simplified SsaTape must be { tape: ops_out, choice_count, output_count }, found %s" % sf, A.where(fn, structs[0]))
     else:
         rule.ok("result SsaTape carries the rebuilt tape and the recounted choices/outputs")
-    if A.ftxt(f.get("asm")) not in ("asm_tape",):
+    if resolved_text(fn, f.get("asm")) != "workspace.alloc.finalize()":
         rule.bad("result|asm", "asm must be the allocator's finalized tape", A.where(fn, structs[0]))
     else:
         rule.ok("result asm is the allocator's tape")
